@@ -65,22 +65,45 @@ fn run_case(k: usize, ret: &V, program: &str) -> (String, String, String, String
     let mut files: std::collections::HashMap<std::path::PathBuf, String> = std::collections::HashMap::new();
     files.insert("main.abra".into(), program.to_string());
     files.insert("sigs.abra".into(), sigs_abra());
-    let prog = match abra_core::compile_bytecode("main.abra", abra_core::MockFileProvider::new(files)) {
-        Ok(p) => p,
-        Err(e) => return ("-".into(), "-".into(), hex(b""), format!("rejected:{}", hex(e.to_string().as_bytes()))),
+    let prog = match std::panic::catch_unwind(|| abra_core::compile_bytecode("main.abra", abra_core::MockFileProvider::new(files))) {
+        Ok(Ok(p)) => p,
+        Ok(Err(e)) => return ("-".into(), "-".into(), hex(b""), format!("rejected:{}", hex(e.to_string().as_bytes()))),
+        Err(e) => return ("-".into(), "-".into(), hex(b""), format!("crash:{}", hex(format!("compiler panic: {}", panic_text(e)).as_bytes()))),
     };
     let mut rt = Runtime::new(prog);
     let mut printed = String::new();
     let mut seen_k = String::from("-");
     let mut seen_args = String::from("-");
+    // the VM run, the host-side from_vm/into_vm servicing: a host panic belongs to THIS case
+    let r = std::panic::catch_unwind(std::panic::AssertUnwindSafe(|| drive(&mut rt, k, ret, &mut printed, &mut seen_k, &mut seen_args)));
+    match r {
+        Ok(status) => {
+            // dropping the runtime frees the heap: also part of the case
+            match std::panic::catch_unwind(std::panic::AssertUnwindSafe(move || drop(rt))) {
+                Ok(()) => (seen_k, seen_args, hex(printed.as_bytes()), status),
+                Err(e) => (seen_k, seen_args, hex(printed.as_bytes()), format!("crash:{}", hex(format!("panic while dropping the runtime: {}", panic_text(e)).as_bytes()))),
+            }
+        }
+        Err(e) => {
+            std::mem::forget(rt); // its state can no longer be trusted
+            (seen_k, seen_args, hex(printed.as_bytes()), format!("crash:{}", hex(panic_text(e).as_bytes())))
+        }
+    }
+}
+
+fn panic_text(e: Box<dyn std::any::Any + Send>) -> String {
+    e.downcast_ref::<String>().cloned().or_else(|| e.downcast_ref::<&str>().map(|s| s.to_string())).unwrap_or_else(|| "panic".into())
+}
+
+fn drive(rt: &mut Runtime, k: usize, ret: &V, printed: &mut String, seen_k: &mut String, seen_args: &mut String) -> String {
     let mut steps = 0u64;
     loop {
         let st = rt.run_n_steps(10_000);
         steps += st.steps_consumed as u64;
         match &st.kind {
-            RuntimeStatusKind::Done => return (seen_k, seen_args, hex(printed.as_bytes()), "done".into()),
+            RuntimeStatusKind::Done => return "done".into(),
             RuntimeStatusKind::MainThreadError(e) => {
-                return (seen_k, seen_args, hex(printed.as_bytes()), format!("error:{}", hex(e.to_string().lines().next().unwrap_or("").as_bytes())));
+                return format!("error:{}", hex(e.to_string().lines().next().unwrap_or("").as_bytes()));
             }
             _ => {}
         }
@@ -99,22 +122,21 @@ fn run_case(k: usize, ret: &V, program: &str) -> (String, String, String, String
                         HostFunctionRet::GetArgs(vec![]).into_vm(thread);
                     }
                     Call::Fn(kk, args) => {
-                        seen_k = kk.to_string();
-                        seen_args = args.iter().map(canon).collect::<Vec<_>>().join(" ");
-                        if args.is_empty() {
-                            seen_args = "()".into();
+                        *seen_k = kk.to_string();
+                        *seen_args = if args.is_empty() { "()".into() } else { args.iter().map(canon).collect::<Vec<_>>().join(" ") };
+                        if kk != k {
+                            return "wrong-function".into();
                         }
-                        // the pending flag must be set until into_vm clears it
-                        write_ret(thread, kk, if kk == k { ret } else { ret });
+                        write_ret(thread, kk, ret);
                         if thread.get_pending_host_func().is_some() {
-                            return (seen_k, seen_args, hex(printed.as_bytes()), "pending-not-cleared".into());
+                            return "pending-not-cleared".into();
                         }
                     }
                 }
             }
         }
         if steps > 5_000_000 {
-            return (seen_k, seen_args, hex(printed.as_bytes()), "timeout".into());
+            return "timeout".into();
         }
     }
 }
@@ -128,9 +150,9 @@ fn main() {
     let stdin = std::io::stdin();
     let lines: Vec<String> = stdin.lock().lines().map(|l| l.unwrap()).collect();
     let n = lines.len();
-    let results: std::sync::Mutex<Vec<Option<String>>> = std::sync::Mutex::new(vec![None; n]);
     let next = std::sync::atomic::AtomicUsize::new(0);
     let workers: usize = std::env::var("VERIF_THREADS").ok().and_then(|s| s.parse().ok()).unwrap_or(10);
+    let out = std::io::stdout();
     std::thread::scope(|sc| {
         for _ in 0..workers {
             std::thread::Builder::new()
@@ -141,26 +163,21 @@ fn main() {
                         break;
                     }
                     let mut p = lines[i].split('\t');
+                    let idx: usize = p.next().unwrap().parse().unwrap();
                     let k: usize = p.next().unwrap().parse().unwrap();
                     let ret = v_from_text(p.next().unwrap());
                     let program = String::from_utf8(unhex(p.next().unwrap())).unwrap();
                     let r = std::panic::catch_unwind(std::panic::AssertUnwindSafe(|| run_case(k, &ret, &program)));
                     let line = match r {
-                        Ok((sk, sa, pr, st)) => format!("R\t{sk}\t{sa}\t{pr}\t{st}"),
-                        Err(e) => {
-                            let msg = e.downcast_ref::<String>().cloned().or_else(|| e.downcast_ref::<&str>().map(|s| s.to_string())).unwrap_or_default();
-                            format!("R\t-\t-\t-\tcrash:{}", hex(msg.as_bytes()))
-                        }
+                        Ok((sk, sa, pr, st)) => format!("R\t{idx}\t{sk}\t{sa}\t{pr}\t{st}"),
+                        Err(e) => format!("R\t{idx}\t-\t-\t-\tcrash:{}", hex(panic_text(e).as_bytes())),
                     };
-                    results.lock().unwrap()[i] = Some(line);
+                    // one line per case, as soon as it is known: survives a later abort of the process
+                    let mut o = out.lock();
+                    let _ = writeln!(o, "{line}");
+                    let _ = o.flush();
                 })
                 .unwrap();
         }
     });
-    let out = std::io::stdout();
-    let mut o = out.lock();
-    for r in results.into_inner().unwrap() {
-        writeln!(o, "{}", r.unwrap()).unwrap();
-    }
-    o.flush().unwrap();
 }
